@@ -76,10 +76,10 @@ type e2eExplorer struct {
 
 func e2e(c *vk.Ctx, idx int64) int64 {
 	bound := 1
-	pres := []int{0, 1, 2}
+	pres := []int{0, 1, 2, 6}
 	if c.Thorough() {
 		bound = 2
-		pres = []int{0, 1, 2, 5}
+		pres = []int{0, 1, 2, 5, 6}
 	}
 	c.Note(fmt.Sprintf("family e2e (real driver, -proto, differential against -symbolize=none): %d layouts x %d function tables x flags {none, m0:F} x {file source, URL source} x %d modes; answer sequences with <= %d non-default answers (search-path Open: 3 answers)", nLayouts, len(pres), len(e2eModes), bound))
 	for la := 0; la < nLayouts; la++ {
@@ -195,6 +195,9 @@ func (x *e2eExplorer) exec(pre []int) []uint8 {
 	if r.Err != nil {
 		if w.nErrAns > 0 {
 			c.Count("e2e/refused-after-source-failure", 1)
+		} else if x.cs.Pre == 6 {
+			// no fresh function id is left: refusing the profile is the valid answer (an invalid one is not)
+			c.Count("e2e/refused-id-space-exhausted", 1)
 		} else {
 			fail("e2e/profile-refused", "no symbol source reported a failure, yet pprof refuses the profile after symbolization: %v", r.Err)
 		}
